@@ -529,6 +529,14 @@ func (c *UConn) clientHandshake(ctx context.Context) (err error) {
 		return err
 	}
 
+	// [uTLS] A spec's TLSVersMin may be lower than what its supported_versions
+	// extension lists. The server must select a version the ClientHello
+	// advertised (RFC 8446, Section 4.2.1), whatever the Config range allows.
+	if len(hello.supportedVersions) > 0 && !slices.Contains(hello.supportedVersions, c.vers) {
+		c.sendAlert(alertProtocolVersion)
+		return fmt.Errorf("tls: server selected protocol version %x which the ClientHello did not advertise", c.vers)
+	}
+
 	// If we are negotiating a protocol version that's lower than what we
 	// support, check for the server downgrade canaries.
 	// See RFC 8446, Section 4.1.3.
